@@ -1,4 +1,5 @@
 import BstreamVerif.Lemmas.ForkStep
+import BstreamVerif.Lemmas.Discovery
 /-!
 # C01 — Undo/New discipline: a consumer always holds one valid parent-linked chain
 
@@ -127,6 +128,67 @@ theorem history_discipline_consistent (cfg : Config) (hnew : cfg.matches .new = 
     simp only
     rw [run_append, hrun1]
     exact hrun2
+
+/-! ### LIB discovery with hold-until-LIB — the configuration of ForkableHub -/
+
+theorem runHistory_nil (cfg : Config) (s : FState) : runHistory cfg s [] = (s, []) := rfl
+
+/-- **a hold-until-LIB forkable that discovers its LIB** (`forkable.New(h, HoldBlocksUntilLIB(), WithKeptFinalBlocks(n))`,
+    as ForkableHub builds it), fed any history of blocks of one consistent block tree: either no LIB is ever found
+    and nothing is delivered; or the history splits as `h1 ++ b :: h2` where nothing is delivered during `h1`, the
+    block `b` discovers the LIB — the deliveries for it are the chain from the LIB (exclusive) to `b` as New followed
+    by the announcement of the LIB block itself (or New `b`, Irreversible `b` when `b` is its own LIB), see
+    `DiscoveryStep` — and from then on the whole event stream keeps the push/pop consumer on one parent-linked chain
+    resting on the LIB, exactly as for a known LIB. -/
+theorem history_discipline_discovery (cfg : Config) (hhold : cfg.hold = true) (hnew : cfg.matches .new = true)
+    (hundo : cfg.matches .undo = true) (hirr : cfg.matches .irreversible = true)
+    (U : Id → Option Blk) (hU : UOK U) (h : List Blk) (s : FState) (hP : PreInv U s)
+    (hin : ∀ b ∈ h, U b.id = some b) (hL : LibHistOK cfg s h) :
+    ((runHistory cfg s h).2 = [] ∧ PreInv U (runHistory cfg s h).1) ∨
+    (∃ h1 b h2 P', h = h1 ++ b :: h2 ∧ (runHistory cfg s h1).2 = [] ∧
+      DiscoveryStep U b (processBlock cfg (runHistory cfg s h1).1 b none).1 (processBlock cfg (runHistory cfg s h1).1 b none).2.1 ∧
+      Inv (processBlock cfg (runHistory cfg s h1).1 b none).1 P' ∧
+      (runHistory cfg s h).2 = (processBlock cfg (runHistory cfg s h1).1 b none).2.1 ++
+        (runHistory cfg (processBlock cfg (runHistory cfg s h1).1 b none).1 h2).2 ∧
+      ∃ P'', (⟨(processBlock cfg (runHistory cfg s h1).1 b none).1.db.libRef.id, P'⟩ : CS).run
+          (runHistory cfg (processBlock cfg (runHistory cfg s h1).1 b none).1 h2).2 =
+          some ⟨(runHistory cfg s h).1.db.libRef.id, P''⟩ ∧ Inv (runHistory cfg s h).1 P'') := by
+  induction h generalizing s with
+  | nil => exact Or.inl ⟨rfl, hP⟩
+  | cons b r ih =>
+    have hd := discovery_step cfg hhold hnew hundo hirr U hU s b hP (hin b (by simp)) hL.1
+    have hfound : ∀ (P' : List Id) (F : List Id), Inv (processBlock cfg s b none).1 P' →
+        Inv2 U F (processBlock cfg s b none).1.db →
+        ∃ h1 b' h2 P'', (b :: r) = h1 ++ b' :: h2 ∧ (runHistory cfg s h1).2 = [] ∧
+          DiscoveryStep U b' (processBlock cfg (runHistory cfg s h1).1 b' none).1 (processBlock cfg (runHistory cfg s h1).1 b' none).2.1 ∧
+          Inv (processBlock cfg (runHistory cfg s h1).1 b' none).1 P'' ∧
+          (runHistory cfg s (b :: r)).2 = (processBlock cfg (runHistory cfg s h1).1 b' none).2.1 ++
+            (runHistory cfg (processBlock cfg (runHistory cfg s h1).1 b' none).1 h2).2 ∧
+          ∃ P3, (⟨(processBlock cfg (runHistory cfg s h1).1 b' none).1.db.libRef.id, P''⟩ : CS).run
+              (runHistory cfg (processBlock cfg (runHistory cfg s h1).1 b' none).1 h2).2 =
+              some ⟨(runHistory cfg s (b :: r)).1.db.libRef.id, P3⟩ ∧ Inv (runHistory cfg s (b :: r)).1 P3 := by
+      intro P' F hI hJ
+      obtain ⟨P3, hrun, hI3⟩ := history_discipline_consistent cfg hnew hundo hirr U hU r F _ P' hI hJ
+        (fun x hx => hin x (by simp [hx])) hL.2
+      refine ⟨[], b, r, P', rfl, rfl, hd, hI, by rw [runHistory_cons]; rfl, P3, ?_, ?_⟩
+      · rw [runHistory_cons]; exact hrun
+      · rw [runHistory_cons]; exact hI3
+    rcases hd with ⟨hP', hev⟩ | ⟨_, _, hI, hJ⟩ | ⟨Lb, news, _, _, _, hI, hJ⟩
+    · -- still no LIB: continue with the rest of the history
+      rcases ih _ hP' (fun x hx => hin x (by simp [hx])) hL.2 with ⟨he, hPf⟩ | ⟨h1, b', h2, P', heq, he1, hds, hI, hevs, P'', hrun, hIf⟩
+      · left
+        rw [runHistory_cons]
+        exact ⟨by simp only; rw [hev, he]; rfl, hPf⟩
+      · right
+        refine ⟨b :: h1, b', h2, P', by rw [heq]; rfl, ?_, ?_, ?_, ?_, P'', ?_, ?_⟩
+        · rw [runHistory_cons]; simp only; rw [hev, he1]; rfl
+        · rw [runHistory_cons]; exact hds
+        · rw [runHistory_cons]; exact hI
+        · rw [runHistory_cons, runHistory_cons]; simp only; rw [hev, hevs]; rfl
+        · rw [runHistory_cons, runHistory_cons]; exact hrun
+        · rw [runHistory_cons]; exact hIf
+    · exact Or.inr (hfound [] [b.id] hI hJ)
+    · exact Or.inr (hfound _ [Lb.id] hI hJ)
 
 /-- the universe-side invariant holds initially for a forkable started on an exclusive LIB `r` that is consistent
     with the universe (blocks naming `r` as parent are higher; the block `r` itself, if it exists, has `r`'s number) -/
